@@ -394,6 +394,24 @@ def direct_clauses(pid, bench, ta, a, tb, b):
                     if _mem(fv, k) is not True:
                         yield ("a range built from a list of versions does not contain a listed one",
                                {"versions": [tx, ty], "range": str(fv), "version": tk})
+        if pid == "C08" and x is a:
+            # three constraints: the two versions with a ranked version of the pool between or beside them
+            mids = [cl[0] for cl in bench.pool.classes[:: max(1, bench.pool.n() // 6)]][:6]
+            for tm, mv in mids:
+                for cs3 in (((">=", x), ("<", mv), (">=", y)), (("<=", x), (">", mv), ("<=", y)), (("=", x), ("!=", mv), ("=", y))):
+                    try:
+                        cons = sorted(mk(c, v) for c, v in cs3)
+                        simp = VersionConstraint.simplify(list(cons))
+                        r1, r2 = R(constraints=cons), R(constraints=simp)
+                    except Exception:  # noqa: BLE001
+                        continue
+                    for k, tk in [(x, tx), (y, ty), (mv, tm)] + [(cl[0][1], cl[0][0]) for cl in bench.pool.classes[:8]]:
+                        m1, m2 = _mem(r1, k), _mem(r2, k)
+                        if isinstance(m1, bool) and m1 != m2:
+                            yield ("simplification changes the membership of a version",
+                                   {"constraints": [str(q) for q in cons], "simplified": [str(q) for q in simp], "version": tk,
+                                    "before": m1, "after": m2})
+                            break
         if pid == "C08":
             for c, d in ((">=", "<="), (">", "<"), ("<=", ">="), ("=", ">"), ("!=", ">=")):
                 try:
@@ -419,7 +437,8 @@ def direct_clauses(pid, bench, ta, a, tb, b):
                     yield ("validation fails with an error that is not a ValueError", {"constraints": [str(q) for q in cons], "error": exc_name(e)})
                     continue
                 try:
-                    same = bool(x == y)
+                    # one version: equal, or not separated by the order (neither below the other)
+                    same = bool(x == y) or (not (x < y) and not (y < x))
                 except Exception:  # noqa: BLE001
                     same = False
                 if same:
